@@ -47,13 +47,19 @@ ASSUMPTIONS = [
     "'iterations converged' is satisfiable; explicit_fraction in [0, 0.8]",
     "segments are produced by a tracker whose interrupts are whole multiples of dt after t_start "
     "(step accounting for other ranges is property C07)",
-    "adaptive clauses: initial dt <= 10 * range, tracker cuts between 5 % and 95 % of the range "
-    "(the controller's own termination tolerance 1e-6*dt is not probed here), error bound only for "
-    "autonomous linear problems with |arg(-a)| <= 60 degrees; 'ends exactly' = within the code's "
-    "dt_min = 1e-10 plus 8 ulp",
+    "adaptive clauses: initial dt <= 1e5 * range in the main search (larger ones are counted under the "
+    "label 'excluded:...' and judged by the dedicated sub-check adaptive_huge_initial_dt = finding "
+    "F-C06a), tracker cuts between 5 % and 95 % of the range (a tracker within 1e-6*dt of t_end makes "
+    "the controller stop there - its documented termination tolerance - and is not generated), error "
+    "bound only for autonomous linear problems with |arg(-a)| <= 60 degrees, |a|*T <= 5, tolerance "
+    "in [1e-6, 1e-3], |u0| in [0.1, 10]; 'ends exactly' = within the code's dt_min = 1e-10 plus 8 ulp",
+    "single trial step (rkf45_single_step_polynomial): initial dt >= 1.25 * range so that the first "
+    "trial step is the whole range; tolerance a factor 4..100 away from the scheme's own estimate",
     "non-autonomous adaptive Euler runs are not judged (outside the statement)",
-    "scipy: methods RK45 / DOP853 / Radau, rtol in [1e-10, 1e-6], atol in [1e-12, 1e-8], "
-    "|a|*T <= 5, Re(a)*T <= 1",
+    "scipy: methods RK45 / DOP853 (+ Radau for real problems; solve_ivp rejects complex states for "
+    "Radau, BDF is not accurate to 100x its tolerance), rtol in [1e-10, 1e-6], atol in [1e-12, 1e-8], "
+    "|a|*T <= 5, Re(a)*T <= 1; |u| in the tolerance is the largest magnitude of the component along "
+    "the exact trajectory",
     "the milstein solver needs a stochastic equation and is covered by C13, not here",
 ]
 
@@ -61,6 +67,8 @@ EPS = float(np.finfo(float).eps)
 FIXED_SOLVERS = ["euler", "runge-kutta", "implicit", "crank-nicolson", "adams-bashforth"]
 FIXED_POINT = ("implicit", "crank-nicolson")
 DT_MIN = 1e-10  # documented AdaptiveSolverBase.dt_min
+HUGE_DT0 = 1e5  # initial adaptive steps beyond HUGE_DT0 * range are routed to the finding sub-check
+KEY_HUGE_DT0 = "C06:controller.run:initial-dt-above-1e6-range-ends-at-start"
 
 
 # ---------------------------------------------------------------------------------------
@@ -623,6 +631,9 @@ def _agreement_adaptive(case, prob):
     t_end = t0 + T
     cut_times = [t0 + float(fr) * T for fr in case.get("cuts", [])]
     dt0 = case.get("dt0")
+    if dt0 is not None and float(dt0) > HUGE_DT0 * T:
+        # known finding F-C06a (see adaptive_huge_initial_dt): excluded here, counted by the label
+        return {"nt": False, "labels": [f"{solver}:adaptive", "excluded:dt0>1e5*T (finding F-C06a)"]}
     out = {}
     for backend in ("numpy", "numba"):
         out[backend] = run_solve(prob, case, solver=solver, backend=backend, t_end=t_end,
@@ -665,6 +676,10 @@ def check_adaptive(case):
     dt0 = case.get("dt0")
     cut_times = [t0 + float(fr) * T for fr in case.get("cuts", [])]
     tag = f"{solver}:{backend}:adaptive"
+    huge = dt0 is not None and float(dt0) > HUGE_DT0 * T
+    if huge and not case.get("judge_huge_dt0"):
+        # known finding F-C06a (see check_huge_initial_dt): excluded from the main search, counted here
+        return {"nt": False, "labels": [tag, "excluded:dt0>1e5*T (finding F-C06a)"]}
     kw = {"tolerance": tol_s}
     if dt0 is not None or case.get("explicit_flag", True):
         kw["adaptive"] = True  # with dt=None `solve` enables adaptive stepping by itself
@@ -673,6 +688,13 @@ def check_adaptive(case):
     if not info["solver"].get("dt_adaptive"):
         raise Violation(f"{tag}: adaptive stepping was requested but info['dt_adaptive'] is false",
                         key=f"{tag}:not-adaptive")
+    if huge:
+        t_final = info["controller"]["t_final"]
+        if not abs(t_final - t_end) <= DT_MIN * (1 + 1e-6) + 8 * ulp(max(abs(t0), abs(t_end))):
+            raise Violation(
+                f"{tag}: adaptive run with initial step dt={dt0!r} >= 1e6 * range ended at t_final={t_final!r} "
+                f"after {info['solver']['steps']} steps, requested t_end={t_end!r} (t_start={t0!r}); the "
+                f"controller's termination tolerance 1e-6*dt exceeds the whole range", key=KEY_HUGE_DT0)
     _check_end_time(tag, info, t0, t_end)
     steps = int(info["solver"]["steps"])
     labels = [tag, a_class(prob.a), "cuts" if cut_times else "no-cuts", "dt0=None" if dt0 is None else
@@ -965,7 +987,7 @@ def fixed_cases(draw, solvers=FIXED_SOLVERS, backends=("numpy", "numba"), cuts="
 
 @st.composite
 def adaptive_cases(draw, backends=("numpy", "numba"), forcing="mixed", solvers=("euler", "runge-kutta"),
-                   tol_lo=1e-6):
+                   tol_lo=1e-6, huge_dt0=False):
     solver = draw(st.sampled_from(list(solvers)))
     backend = draw(st.sampled_from(list(backends))) if backends else None
     T = draw(st.one_of(log_float(1e-2, 10.0), st.sampled_from([1.0, 0.5, 2.0])))
@@ -978,8 +1000,12 @@ def adaptive_cases(draw, backends=("numpy", "numba"), forcing="mixed", solvers=(
     else:
         b, c, tc, ts = 0.0, [0.0] * 4, float(t_start), 1.0
     tol = draw(st.one_of(log_float(tol_lo, 1e-3), st.sampled_from([1e-4, 1e-3, 1e-5])))
-    dt0 = draw(st.one_of(st.none(), log_float(1e-5, 10.0).map(lambda x: x * T),
-                         st.sampled_from([1e-3, 0.1, 1.0]).map(lambda x: min(x, 10 * T))))
+    if huge_dt0:  # finding F-C06a: initial step >= 1e6 * range
+        dt0 = T * draw(log_float(1.5e6, 1e9))
+    else:
+        dt0 = draw(st.one_of(st.none(), log_float(1e-5, 10.0).map(lambda x: x * T),
+                             log_float(1e-5, 1e7).map(lambda x: x * T),
+                             st.sampled_from([1e-3, 0.1, 1.0]).map(lambda x: min(x, 10 * T))))
     ncut = draw(st.sampled_from([0, 0, 1, 2, 3]))
     cuts = sorted(draw(st.lists(st.floats(0.05, 0.95), min_size=ncut, max_size=ncut, unique=True)))
     u0 = draw(states())
@@ -1077,6 +1103,13 @@ SUBCHECKS = [
     SubCheck("scipy_solver", strategy=scipy_cases, check=check_scipy, mode="nojit",
              budget={"quick": 200, "thorough": 6000}, shards={"quick": 1, "thorough": 4},
              rule="non-trivial = b != 0 or complex a or t_start != 0"),
+    # ---- dedicated sub-check of finding F-C06a ------------------------------------------
+    SubCheck("adaptive_huge_initial_dt",
+             strategy=lambda: adaptive_cases(huge_dt0=True, forcing="none").map(
+                 lambda c: dict(c, judge_huge_dt0=True)),
+             check=check_adaptive, mode="nojit", budget={"quick": 40, "thorough": 400},
+             shards={"quick": 1, "thorough": 1},
+             rule="initial step >= 1.5e6 * range; end-time clause; non-trivial = >= 2 accepted steps"),
     # ---- compiled samples (every case compiles its own stepper: 1-5 s) ---------------
     SubCheck("fixed_step_schemes_jit",
              strategy=lambda: fixed_cases(backends=("numba",), cuts="any", nmax=12), check=check_fixed,
